@@ -2380,9 +2380,9 @@ int lp_polynomial_constraint_resolve_fm(
           p2_lc_sgn = -p2_lc_sgn;
         } else if (p2_sgn == LP_SGN_EQ_0) {
           p1_lc_sgn = -p1_lc_sgn;
+        } else {
+          ok = 0;
         }
-      } else {
-        ok = 0;
       }
 
       if (ok) {
